@@ -656,10 +656,12 @@ class Tr:
                     act = f'instr_append {t}'
                 elif attr == '_instructions' and meth == 'appendleft':
                     act = f'instr_appendleft {t}'
-                elif attr in ('_loaded_files', '_dvars') and meth == 'append':
+                elif attr != '_instructions' and meth == 'append':
                     act = f'modify (fun s__ => set_{fld} ({fld} s__ ++ [{t}]) s__)'
                 elif attr in ('_loaded_files', '_dvars') and meth == 'extend':
                     act = f'modify (fun s__ => set_{fld} ({fld} s__ ++ {t}) s__)'
+                elif attr != '_instructions' and meth == 'extend':
+                    act = f'modify (fun s__ => set_{fld} ({fld} s__ ++ as_list {t}) s__)'
                 elif attr == '_loaded_files' and meth == 'remove':
                     act = f'modify (fun s__ => set_{fld} (remove_first pyeq {t} ({fld} s__)) s__)'
                 else:
@@ -1048,6 +1050,37 @@ FARCALL_SPEC = dict(out='SrcFc.v', imports='PureState LineTok PgmSrc PgmEquiv Fc
                     parts=[('TrenchWriter', '_farcall_trench_column', 'farcall_body', [('column', 'scol'), ('index', 'Z')])])
 
 
+
+# ---- append / extend of the five writers (C16): objects as dynamically typed items
+_AE_KIND = {'Waveguide': 'KWg', 'NasuWaveguide': 'KNwg', 'TrenchColumn': 'KTc', 'UTrenchColumn': 'KUtc', 'Marker': 'KMk'}
+
+
+def _h_ae(tr, e, env):
+    if isinstance(e, ast.Call) and isinstance(e.func, ast.Name) and not e.keywords:
+        if e.func.id == 'isinstance' and len(e.args) == 2 and isinstance(e.args[0], ast.Name) and isinstance(e.args[1], ast.Name):
+            x, cls = cname(e.args[0].id), e.args[1].id
+            if cls == 'list':
+                return [], f'(is_grp {x})'
+            if cls in _AE_KIND:
+                return [], f'(isinst_item {x} {_AE_KIND[cls]})'
+        if e.func.id == 'flatten' and len(e.args) == 1 and isinstance(e.args[0], ast.Name):
+            return [], f'(flat_of {cname(e.args[0].id)})'
+        if e.func.id == 'nest_level' and len(e.args) == 1 and isinstance(e.args[0], ast.Name):
+            return [], f'(Z.of_nat (nest_of {cname(e.args[0].id)}))'
+
+
+def _skip_ae(st):
+    # the derived collections of the trench writers (trenches / beds of the columns) are not part of the routing property
+    return (isinstance(st, ast.Expr) and isinstance(st.value, ast.Call) and isinstance(st.value.func, ast.Attribute)
+            and st.value.func.attr == 'extend' and isinstance(st.value.func.value, ast.Attribute)
+            and isinstance(st.value.func.value.value, ast.Name) and st.value.func.value.value.id == 'self'
+            and st.value.func.value.attr in ('trenches', 'beds'))
+
+
+AE_SPEC = dict(out='SrcAe.v', classes=[('TrenchWriter', 'tc'), ('UTrenchWriter', 'utc'), ('WaveguideWriter', 'wg'), ('NasuWriter', 'nwg'),
+                                       ('MarkerWriter', 'mk')])
+
+
 PURE_PREAMBLE = '''(* GENERATED by harness/py2coq.py from src/femto/%s -- do not edit.
    Small pure methods (point count, Nasu pass order, number of wall passes, adjusted bridge); PureEquiv.v relates them to
    Path/Sampling.v, Writers/Writers.v, Trench/TreeProofs.v. *)
@@ -1111,6 +1144,35 @@ def translate_writers(src_dir: str, spec: dict | None = None) -> str:
     return ''.join(out)
 
 
+def translate_append_extend(src_dir: str) -> str:
+    global METHODS, CFG_ATTRS, STATE_ATTRS, ORACLES, CFG_TYPE, LOCAL_ELT, EXTRA_PARAMS, MONAD, EXPR_HOOKS, STMT_SKIP, RECEIVERS
+    saved = (METHODS, CFG_ATTRS, STATE_ATTRS, ORACLES, CFG_TYPE, LOCAL_ELT, EXTRA_PARAMS, MONAD, EXPR_HOOKS, STMT_SKIP, RECEIVERS)
+    out = [PURE_PREAMBLE % ('writer.py', ' Writers.Device', 'AeState')]
+    try:
+        mod = ast.parse(pathlib.Path(src_dir, 'writer.py').read_text())
+        for cls_name, tag in AE_SPEC['classes']:
+            cls = [n for n in mod.body if isinstance(n, ast.ClassDef) and n.name == cls_name]
+            if len(cls) != 1:
+                raise Unsupported(f'class {cls_name} not found in writer.py')
+            METHODS = {'append': ('method', [('obj', 'item')], 'unit'), 'extend': ('method', [('obj', 'item')], 'unit')}
+            CFG_ATTRS, STATE_ATTRS, ORACLES = set(), {'obj_list': 'ol'}, {}
+            CFG_TYPE, LOCAL_ELT, EXTRA_PARAMS, MONAD = 'unit', {}, '', 'MI'
+            EXPR_HOOKS, STMT_SKIP, RECEIVERS = [_h_ae], [_skip_ae], {'self'}
+            tr = Tr(cls[0])
+            for meth in ('append', 'extend'):
+                if meth not in tr.defs:
+                    # inherited (UTrenchWriter.extend is TrenchWriter.extend; self.append dispatches to the subclass)
+                    base = [n for n in mod.body if isinstance(n, ast.ClassDef) and n.name == cls[0].bases[0].id]
+                    tr.defs[meth] = Tr(base[0]).defs[meth]
+                text = tr.method(meth)
+                text = text.replace('src_append', f'src_{tag}_append').replace('src_extend', f'src_{tag}_extend')
+                out.append(text)
+                out.append('\n')
+    finally:
+        METHODS, CFG_ATTRS, STATE_ATTRS, ORACLES, CFG_TYPE, LOCAL_ELT, EXTRA_PARAMS, MONAD, EXPR_HOOKS, STMT_SKIP, RECEIVERS = saved
+    return ''.join(out)
+
+
 def main(argv):
     """py2coq.py <dir of femto sources> <output dir> <group>...   groups: pgm (PgmSrc.v), SrcLp.v, SrcNw.v, SrcTc.v, SrcTr.v"""
     if len(argv) < 3:
@@ -1123,6 +1185,8 @@ def main(argv):
                 name, text = 'PgmSrc.v', translate(str(src_dir / 'pgmcompiler.py'))
             elif g == 'SrcWr.v':
                 name, text = g, translate_writers(str(src_dir))
+            elif g == 'SrcAe.v':
+                name, text = g, translate_append_extend(str(src_dir))
             elif g == 'SrcFc.v':
                 name, text = g, translate_writers(str(src_dir), FARCALL_SPEC)
             else:
